@@ -73,7 +73,7 @@ var StageCounters = map[string][]string{
 	"C11": {"ascii_documents_compared_after_their_wide_character_twin", "conversions_by_neighbour_instances_sharing_extension_values", "line_ending_documents", "wide_character_documents_on_a_cjk_base"},
 	"C14": {"histories", "history_nested_renders", "history_conversions_ending_with_node_renderer_error", "history_conversions_with_node_renderer_error_and_failing_writer", "subtrees_rendered_with_fault_enumeration"},
 	"C15": {"documents_with_ids_of_a_chosen_length", "documents_with_many_headings"},
-	"C16": {"context_histories", "documents_parsed_with_a_reused_context"},
+	"C16": {"context_histories", "documents_parsed_with_a_reused_context", "reference_graph_documents"},
 	"C18": {"calls_Reset", "long_source_cases"},
 	"C19": {"big_filter_runs", "big_filter_full_membership_sweeps", "filter_programs"},
 	"C20": {"scenarios_with_one_object_registered_twice", "shared_trigger_line_follows_a_paragraph_that_is_transformed_away"},
